@@ -11,6 +11,21 @@ TEXTS = {
   "ref": "DESIGN.md 4 C04", "technique": TLA,
   "note": "known findings KF-C09-rollback-number, KF-C16-txheight",
  },
+ "C06": {
+  "level": FS + "RecvFilters specifies the accepted prefix (limit = min(filters, expected hashes)), the expected hashes (cached hashes below the last final check point, else the quorum prefix of the proven peers' latest hashes: LatestQuorum) and the hash chain from the parent; on the real code honest BlockFilters answers are preceded by mutants built from the client's own request (tampered filter bytes, swapped filters, start +-1, dropped / duplicated hash, unsolicited batches incl. right after a restart, and block hashes substituted by another canonical block / a block of another branch / a random hash while the filters are kept); every step must be explained by the specification, MatchedAtRightHeight is an invariant of every state and the consequences are followed through proof, download and indexing to Complete at quiescence.",
+  "ref": "DESIGN.md 4 C06", "technique": TLA,
+  "note": "known finding KF-C06-blockhash (substituted block hashes are accepted); after it triggers the completeness checks of that scenario are void",
+ },
+ "C02": {
+  "level": FS + "On the real code the honest SendBlock / SendBlocksProof (v0, v1) / SendTransactionsProof (v0, v1) answers are preceded or replaced by mutants: bodies that the proved header does not commit to (transaction replaced / removed / added), altered / dropped / duplicated headers, found-and-missing, dropped or extra MMR proof items, altered v1 uncles hash, shortened v1 extensions, altered witnesses root, Merkle index, Merkle lemma, replaced transaction, altered filtered-block header; each must be banned with index, matched-block map and fetch tables exactly as specified (unchanged except the retry marks), NoForgedData holds in every state (every stored cell / history entry / transaction / header is a world object) and the RPC-visible statuses stay truthful.",
+  "ref": "DESIGN.md 4 C02", "technique": TLA,
+  "note": "mutations never regenerate the MMR proof; answers nobody asked for are covered by the no-request branch",
+ },
+ "C08": {
+  "level": FS + "A seeded sync history (first-run initialisation, set_scripts all + partial, filter batches, block download and indexing, check point finalisation, shallow fork switch with rollback) is run once to count the storage writes W through the hook in storage.rs, then once per write boundary k (quick: an even sample of 45 per history and process, thorough: every k): the k-th write aborts the process, all in-memory state is dropped, the RocksDB directory is reopened and honest syncing continues to quiescence.  A store that cannot be reopened (DeadStore) or any panic other than the documented long-fork abort is never a step of the specification; from the crash on every logged state must satisfy CellsSound / HistOnCanon / ScriptsNumberHonest / LastNAncestors and the final state Complete, i.e. the RPC-visible index equals the crash-free ground truth.",
+  "ref": "DESIGN.md 4 C08", "technique": TLA,
+  "note": "durability below the process (torn writes, fsync) is out of scope; known findings KF-C09-rollback-number, KF-C16-txheight",
+ },
  "C09": {
   "level": FS + "SetScripts is specified for all / partial / delete incl. empty lists, duplicates and the rewind rule; random command sequences are issued at every point of an ongoing sync (before/after filter batches, matched blocks pending or partly downloaded, restarts); every post-state must equal the specified script set / filtered number / cleared records, and ScriptsNumberHonest (history variable startOf) is evaluated on every state: no script is ever reported filtered beyond a canonical block that creates one of its cells and is not indexed.",
   "ref": "DESIGN.md 4 C09", "technique": TLA,
